@@ -175,3 +175,169 @@ def run(F, rep, rule, only=None):
                "" if look else ("`%s` is followed (after optional whitespace) by %s, which can begin with an identifier character, and nothing else is required: "
                                 "`%sion_count = 0` is read as `%s ion_count ..`" % (kw, nxt.get("v", nxt["k"]), kw, kw)), "compiler/src/grammar.pest", key=key)
     return n
+
+
+# ---- exponential backtracking -------------------------------------------------------------------------------------------------------------
+
+def _expand(gr, e, depth=0):
+    """The leading items of an expression: a list of alternatives, each a list of leading items (('lit', text) / ('rule', name)) up to and
+    including the first rule reference that is not inlined (silent rules and single-reference wrappers are looked through, optional leading items give two alternatives)."""
+    k = e["k"]
+    if k in ("str", "insens"):
+        return [[("lit", e["v"])]]
+    if k == "ident":
+        n = e["v"]
+        r = gr.rules.get(n)
+        if r is not None and r["ty"] == "silent" and depth < 6:
+            return _expand(gr, r["expr"], depth + 1)
+        return [[("rule", n)]]
+    if k == "seq":
+        items = flat(e)
+        outs = [[]]
+        for it in items:
+            if it["k"] in ("negpred", "pospred"):
+                continue
+            heads = _expand(gr, it["e"] if it["k"] in ("opt", "rep") else it, depth)
+            new = []
+            for o in outs:
+                if o and o[-1][0] == "rule":
+                    new.append(o)
+                    continue
+                for h in heads:
+                    new.append(o + h)
+                if it["k"] in ("opt", "rep"):
+                    new.append(o)
+            outs = new
+            if all(o and o[-1][0] == "rule" for o in outs):
+                break
+        return outs
+    if k == "choice":
+        return _expand(gr, e["a"], depth) + _expand(gr, e["b"], depth)
+    if k in ("opt", "rep", "rep_once"):
+        return _expand(gr, e["e"], depth)
+    return [[]]
+
+
+def _alts(e):
+    if e["k"] == "choice":
+        return _alts(e["a"]) + _alts(e["b"])
+    return [e]
+
+
+def backtracking(F, rep, rule):
+    """pest parsers do not memoise: when alternative A of an ordered choice fails after it has parsed a nested construct, and a later alternative B parses
+    that same construct again from the same position, a nesting of depth d is parsed 2^d times (`x = [[[[[[[[[[[[[[[[[[[[[[1` - 28 bytes - does not
+    finish).  Two shapes are decided per choice whose rule is recursive: (subsumed) B is a rule that A can begin with, through rule references and
+    optional prefixes only; (common-prefix) A and B begin with the same literals followed by a reference to the same recursive rule.  In both,
+    B (or the shared rule) has to lead back to the rule of the choice for the doubling to nest."""
+    gr = Grammar(F.grammar())
+    reach = {}
+
+    def refs_of(e, acc):
+        if e["k"] == "ident" and e["v"] in gr.rules:
+            acc.add(e["v"])
+        for k in ("a", "b", "e"):
+            if isinstance(e.get(k), dict):
+                refs_of(e[k], acc)
+        return acc
+    direct = {n: refs_of(r["expr"], set()) for n, r in gr.rules.items()}
+
+    def reaches(a, b):
+        if a not in reach:
+            seen, todo = set(), [a]
+            while todo:
+                v = todo.pop()
+                for w in direct.get(v, ()):
+                    if w not in seen:
+                        seen.add(w)
+                        todo.append(w)
+            reach[a] = seen
+        return b in reach[a]
+
+    def leftmost(e, target, depth=0, seen=None):
+        """can e begin with rule `target` (through references, optional / repeated prefixes and alternatives)?"""
+        seen = seen if seen is not None else set()
+        k = e["k"]
+        if k == "ident":
+            if e["v"] == target:
+                return True
+            if e["v"] in gr.rules and e["v"] not in seen and depth < 40:
+                seen.add(e["v"])
+                return leftmost(gr.rules[e["v"]]["expr"], target, depth + 1, seen)
+            return False
+        if k == "seq":
+            for it in flat(e):
+                if it["k"] in ("negpred", "pospred"):
+                    continue
+                if leftmost(it, target, depth, seen):
+                    return True
+                if not gr.first(it)[1]:
+                    return False
+            return False
+        if k == "choice":
+            return leftmost(e["a"], target, depth, seen) or leftmost(e["b"], target, depth, seen)
+        if k in ("opt", "rep", "rep_once"):
+            return leftmost(e["e"], target, depth, seen)
+        return False
+    n = 0
+    reported = set()
+    _ob = rep.ob
+
+    def ob_once(*a, **kw):
+        if kw.get("key") in reported:
+            return
+        reported.add(kw.get("key"))
+        _ob(*a, **kw)
+
+    def visit(owner, e):
+        nonlocal n
+        if e["k"] == "choice":
+            alts = _alts(e)
+            for i, a in enumerate(alts):
+                for b in alts[i + 1:]:
+                    n += 1
+                    # (subsumed)
+                    if b["k"] == "ident" and b["v"] in gr.rules and reaches(b["v"], owner) and leftmost(a, b["v"]):
+                        ob_once(rule, "grammar rule %s: alternative `%s` is not parsed a second time after an earlier alternative that begins with it failed" % (owner, b["v"]),
+                               "violated", "an earlier alternative (%s) can begin with `%s`, which leads back to %s: a nesting of depth d is parsed 2^d times when the outer "
+                               "construct fails late (an unclosed bracket)" % (a.get("v", a["k"]), b["v"], owner), "compiler/src/grammar.pest",
+                               key="%s|%s|subsumed|%s" % (rule, owner, b["v"]))
+                        continue
+                    # (common-prefix)
+                    ea_, eb_ = (gr.rules[a["v"]]["expr"] if a["k"] == "ident" and a["v"] in gr.rules else a), (gr.rules[b["v"]]["expr"] if b["k"] == "ident" and b["v"] in gr.rules else b)
+                    for ha in _expand(gr, ea_):
+                        for hb in _expand(gr, eb_):
+                            ra = _lead_rule(gr, ha)
+                            rb = _lead_rule(gr, hb)
+                            if ha and hb and ra and rb and ra == rb and [x for x in ha if x[0] == "lit"] == [x for x in hb if x[0] == "lit"] and len(ha) > 1 and reaches(ra, owner):
+                                ob_once(rule, "grammar rule %s: alternatives `%s` and `%s` do not both start by parsing the same nested `%s`" % (
+                                    owner, a.get("v", a["k"]), b.get("v", b["k"]), ra), "violated",
+                                    "both begin with %s followed by `%s`, which leads back to %s: when the first fails behind it the nested construct is parsed again, 2^depth "
+                                    "times for a nesting of that depth" % ([x[1] for x in ha if x[0] == "lit"], ra, owner), "compiler/src/grammar.pest",
+                                    key="%s|%s|common-prefix|%s|%s" % (rule, owner, a.get("v", a["k"]), b.get("v", b["k"])))
+                                break
+                        else:
+                            continue
+                        break
+        for k in ("a", "b", "e"):
+            if isinstance(e.get(k), dict):
+                visit(owner, e[k])
+    for name, r in sorted(gr.rules.items()):
+        if reaches(name, name):
+            visit(name, r["expr"])
+    rep.ob(rule, "no ordered choice of a recursive grammar rule parses one nested construct under two alternatives (%d pairs of alternatives judged)" % n,
+           "violated" if reported else "ok", "", "compiler/src/grammar.pest", key=rule + "|summary")
+    return n
+
+
+def _lead_rule(gr, head):
+    """the rule a leading sequence ends in, looking through one wrapper rule whose body starts with a single rule reference (`open_ended_type = type ~ "..."`)"""
+    if not head or head[-1][0] != "rule":
+        return None
+    n = head[-1][1]
+    r = gr.rules.get(n)
+    if r is not None:
+        items = flat(r["expr"])
+        if items and items[0]["k"] == "ident" and items[0]["v"] in gr.rules and len(items) > 1:
+            return items[0]["v"]
+    return n
